@@ -440,6 +440,33 @@ func (self *VM) spawnCoreInternal(
 	return core
 }
 
+// The value of a `spawn` expression: `join()` waits until the thread has run to its end and gives out (a copy of) the
+// value which its function returned.
+func threadHandle(thread *Core) *value.Value {
+	return value.NewValueObject(map[string]*value.Value{
+		"join": value.NewValueBuiltinFunction(func(_ value.Executor, cancelCtx *context.Context, span errors.Span, _ ...value.Value) (*value.Value, *value.VmInterrupt) {
+			select {
+			case <-thread.finished:
+			case <-(*cancelCtx).Done():
+				return nil, value.NewVMTerminationInterrupt(context.Cause(*cancelCtx).Error(), span)
+			}
+
+			if thread.ended != nil {
+				// The thread did not get to a result: `Wait` reports its interrupt and cancels every other thread, this one too.
+				<-(*cancelCtx).Done()
+				return nil, value.NewVMTerminationInterrupt(context.Cause(*cancelCtx).Error(), span)
+			}
+
+			if len(thread.Stack) == 0 {
+				return value.NewValueNull(), nil
+			}
+
+			result := (*thread.Stack[len(thread.Stack)-1]).Clone()
+			return result, nil
+		}),
+	})
+}
+
 func (self *VM) WaitNonConsuming() {
 	for {
 		self.Cores.Lock.RLock()
